@@ -27,7 +27,9 @@ import onnx
 
 from harness import serde_common as sc
 from harness import serde_meta as sm
+from harness import scope_ext9 as sx9
 from harness import scope_bridge as sb
+from harness import scope_attr as sa
 from harness.common import Ctx, Part, lean_batch, load_corpus, pmap
 
 THEOREMS = [
@@ -46,7 +48,12 @@ THEOREMS = [
     "IrVerif.Scope.C03_roundtrip_ext_devices",
     "IrVerif.Scope.C03_roundtrip_ext_model",
     "IrVerif.Scope.C03_roundtrip_ext",
+    "IrVerif.Scope.C03_attr_roundtrip",
+    "IrVerif.Scope.C03_attr_subs",
+    "IrVerif.Scope.C03_roundtrip_attrs",
     "IrVerif.Scope.C03_ext_certificate_decidable",
+    "IrVerif.Scope.C03_roundtrip_ext_ir9_partial",
+    "IrVerif.Scope.C03_ext_ir9_not_roundtrip",
     "IrVerif.Scope.C03_bridge_deserialize_partial",
     "IrVerif.Scope.C03_bridge_serialize_partial",
     "IrVerif.Scope.C03_bridge_roundtrip_partial",
@@ -57,6 +64,15 @@ THEOREMS = [
     "IrVerif.Scope.C03_bridge_roundtrip",
     "IrVerif.Scope.C03_bridge_gok_full",
     "IrVerif.Scope.C03_bridge_serde",
+    "IrVerif.Scope.C03_bridge_deserialize_function",
+    "IrVerif.Scope.C03_bridge_deserialize_model",
+    "IrVerif.Scope.C03_bridge_serialize_model",
+    "IrVerif.Scope.C03_bridge_gok_model",
+    "IrVerif.Scope.C03_bridge_serde_model",
+    "IrVerif.Scope.C03_bridge_deserialize_model9",
+    "IrVerif.Scope.C03_bridge_serialize_model9",
+    "IrVerif.Scope.C03_bridge_gok_model9",
+    "IrVerif.Scope.C03_bridge_serde_model9",
 ]
 ASSUMPTIONS = [
     "C02 bridge (Model/ScopeSerdeBridge*.lean, Lemmas/ScopeSerdeBridge*.lean, op bridge.graph): C03_bridge_* identify the Scope "
@@ -69,7 +85,10 @@ ASSUMPTIONS = [
     "and the conclusions (bridge_des_agree / bridge_ser_agree / bridge_norm_agree, also outside the fragments); absGFull is "
     "compared with this harness's own abstraction of the same proto up to a bijection of the opaque tokens "
     "(bridge_abstractions_agree), and C02's model of to_proto(from_proto(p)) with the real one (bridge_c02_model_vs_real): the "
-    "C02 model runs on the C03 generator. Functions and models are in the bridge only if C03_bridge_*_model are listed in THEOREMS",
+    "C02 model runs on the C03 generator. The same for whole models with functions at IR version >= 10 (op bridge.model, theorems C03_bridge_*_model, fragment "
+    "sharedM = C02's wfModel; counters hyp_bridge_model_shared / bridge_model_*) and at IR version < 10 in the experimental "
+    "function value-info format (deserializeM9 / serializeM9 true, theorems C03_bridge_*_model9, fragment sharedM9 = wfModel + no "
+    "experimental entry with an empty value name: there C02's model skips the anonymous node outputs the code visits)",
     "value-info content and tensor payloads are opaque tokens in the model; non-graph node attributes are compared by "
     "the oracle only; functions are part of the core model (C03_roundtrip_model, scope.mser) for IR version >= 10",
     "decoration layer (Model/ScopeMeta.lean, scope.dser): metadata_props of model / graph / node / function, opset "
@@ -111,6 +130,7 @@ ASSUMPTIONS = [
     "outputs, Node.version / meta / nested opset_imports / function graph names are IR-only, a "
     "non-input initializer without type/shape receives them from its tensor, a shape without a type "
     "is not serializable, FLOAT attributes are float32",
+    "attribute layer (Model/ScopeAttr.lean; harness/scope_attr.py): the payload of a non-graph attribute is ONE opaque token = deterministic bytes of an AttributeProto holding only the payload field of the attribute's type; stray payload fields of other types are not in the abstraction; TENSOR(S) / TYPE_PROTO(S) payloads are normalised through their leaf codec and the leaf decoders are the identity on tokens (leafOk = the leaf decoder alone accepts the payload; STRINGS: UTF-8 checked by the harness); the placement of the attribute trees against the core trees (NodeP.subs = subsOfP of the survivors, NodeT.subs = subsOfS) is compared on every case (shape of the tree of graphs), not proved against the core model; AErr.unknownType is unreachable from python-protobuf (a number outside the closed enum reads as 0)",
 ]
 
 
@@ -653,6 +673,8 @@ def run_case(part, gen_seed: int, p_odd: float, lean_reqs: list, pending: list) 
     for k, v in gen.hist.items():
         part.count(k, v)
     decorate_ir(random.Random(gen_seed ^ 0x5EED), model, part)
+    sx9.decorate_ir9(random.Random(gen_seed ^ 0x9E9), model, part)
+    attr_reason = sa.decorate_attrs_ir(random.Random(gen_seed ^ 0xA77), model, part)  # attribute layer: more kinds
     # ---- decoration layer (Model/ScopeMeta.lean): pre-state of the decorations
     deco0 = None
     try:
@@ -671,6 +693,8 @@ def run_case(part, gen_seed: int, p_odd: float, lean_reqs: list, pending: list) 
     except Exception as e:  # noqa: BLE001 - e.g. a tensor that cannot produce bytes
         part.count(f"ext_outside_model=dump:{type(e).__name__}")
     reason = sc.serializable_reason(model)
+    reason = reason or attr_reason
+    at0 = sa.c03_request(part, model, case)  # attribute layer (Model/ScopeAttr.lean): pre-state
     # ---- model request (pre-state)
     world0 = None
     flags: dict = {}
@@ -745,6 +769,8 @@ def run_case(part, gen_seed: int, p_odd: float, lean_reqs: list, pending: list) 
                     where = re.sub(r"value '.*", "value", where)
                     if "metadata" not in where and _d107_trigger(model) and ("const_value" in mm or ".attr[" in mm):
                         where = "tensor-metadata-all-keys-deleted"  # D107
+                    elif where.startswith("function") and sx9.leak_trigger(model):
+                        where = "ir9-main-graph-value-info-leaks-onto-function-value"  # D321
                     elif model.ir_version < 10 and where.startswith("function") and any(
                         "/" in ident or "::" in ident
                         for f in model.functions.values()
@@ -762,6 +788,11 @@ def run_case(part, gen_seed: int, p_odd: float, lean_reqs: list, pending: list) 
         lean_reqs.append({"m": "scope.meser" if ext_wf else "scope.eser", "w": we0["world"], "ext": we0["ext"],
                           "ver": int(model.ir_version)})
         pending.append(("E", case, model, p1, err, m2, ext_wf))
+    sx9.queue_c03(part, case, model, p1, err, m2, lean_reqs, pending)
+    sx9.collision_case(IRGen, part, case, model, lean_reqs, pending)
+    if at0 is not None:
+        lean_reqs.append({"m": "scope.aser", "w": at0[0]})
+        pending.append(("A", case, at0[0], at0[1], model, p1, err, m2))
     if deco0 is not None:
         lean_reqs.append({"m": "scope.dser", "w": deco0})
         pending.append(("D", case, deco0, model, p1, err, m2))
@@ -771,18 +802,25 @@ def run_case(part, gen_seed: int, p_odd: float, lean_reqs: list, pending: list) 
     if p1 is not None:
         # ---- C02 bridge (Model/ScopeSerdeBridge.lean): the written main graph in C02's proto JSON
         breq = sb.bridge_request(p1.graph, int(model.ir_version))
+        p3 = None
+        if m2 is not None:
+            # to_proto(from_proto(p1)): what C02's model (serModel . desModel) is compared with on this generator
+            try:
+                p3 = serde.serialize_model(m2)
+            except Exception:  # noqa: BLE001 - a raise is reported by the C17-side fix-point oracle
+                part.count("bridge_reserialization_raised")
         if breq is None:
             part.count("bridge_outside_c02_encoding")
         else:
-            p3 = None
-            if m2 is not None and (model.ir_version >= 10 or not len(model.functions)):
-                # to_proto(from_proto(p1)): what C02's model (serGraph . desGraph) is compared with on this generator
-                try:
-                    p3 = serde.serialize_model(m2)
-                except Exception:  # noqa: BLE001 - a raise is reported by the C17-side fix-point oracle
-                    part.count("bridge_reserialization_raised")
             lean_reqs.append(breq)
-            pending.append(("B", case, p1, p3))
+            # graph level: below IR version 10 the real main graph also carries the functions' experimental entries
+            pending.append(("B", case, p1, p3 if (model.ir_version >= 10 or not len(model.functions)) else None))
+        mreq = sb.model_request(p1)
+        if mreq is None:
+            part.count("bridge_model_outside_c02_encoding")
+        else:
+            lean_reqs.append(mreq)
+            pending.append(("BM", case, p1, p3))
     if worldM is not None:
         part.count("model_with_functions")
         lean_reqs.append({"m": "scope.mser", "w": worldM})
@@ -1203,12 +1241,18 @@ def _flush(part, reqs: list, pending: list) -> None:
     for out, p in zip(lean_batch(reqs), pending):
         if p[0] == "M":
             diff_case_model(part, out, *p[1:])
+        elif p[0] == "A":
+            sa.c03_diff(part, out, *p[1:])
         elif p[0] == "D":
             diff_deco(part, out, *p[1:])
         elif p[0] == "E":
             diff_ext(part, out, *p[1:])
+        elif p[0] == "E9":
+            sx9.diff_c03(part, out, *p[1:], d107=_d107_trigger)
         elif p[0] == "B":
             sb.diff_bridge(part, out, *p[1:])
+        elif p[0] == "BM":
+            sb.diff_bridge_model(part, out, *p[1:])
         else:
             diff_case(part, out, *p)
     reqs.clear()
@@ -1239,6 +1283,7 @@ def run(ctx: Ctx) -> None:
     for obj in load_corpus("C03"):
         replay(ctx, obj)
     check_write_sites(ctx)
+    sa.c03_odd_stream(ctx, ctx.pick(150, 3000))  # attribute layer: the attributes on which serialization raises
     shards = 16
     n = ctx.pick(2400, 60000) // shards
     seeds = [ctx.rng.randrange(2**62) for _ in range(shards)]
@@ -1261,16 +1306,25 @@ def replay(ctx: Ctx, obj: dict) -> None:
     reqs: list = []
     pending: list = []
     for case in _replay_cases(obj):
+        if "attr_stream" in case:
+            sa.c03_odd_case(part, case, reqs, pending)
+            continue
         run_case(part, case["gen_seed"], case["p_odd"], reqs, pending)
     for out, p in zip(lean_batch(reqs), pending):
         if p[0] == "M":
             diff_case_model(part, out, *p[1:])
+        elif p[0] == "A":
+            sa.c03_diff(part, out, *p[1:])
         elif p[0] == "D":
             diff_deco(part, out, *p[1:])
         elif p[0] == "E":
             diff_ext(part, out, *p[1:])
+        elif p[0] == "E9":
+            sx9.diff_c03(part, out, *p[1:], d107=_d107_trigger)
         elif p[0] == "B":
             sb.diff_bridge(part, out, *p[1:])
+        elif p[0] == "BM":
+            sb.diff_bridge_model(part, out, *p[1:])
         else:
             diff_case(part, out, *p)
     ctx.merge(part)
